@@ -310,6 +310,9 @@ SPECS["C15"] = dict(
         "Woodpile.Props.C15.run_refines_list",
         "Woodpile.Props.C15.run_from_new",
         "Woodpile.Props.C15.run_snoc",
+        "Woodpile.Props.C15.zdeque_step_is_length_image",
+        "Woodpile.Props.C15.zdeque_run_is_length_image",
+        "Woodpile.Props.C15.zdeque_run_spec",
     ],
     families=[dict(name="sdeque", quick=3000, thorough=200000)],
     technique="Lean 4 proof (representation invariant = check_rep, per-operation refinement of a List deque, induction over "
@@ -323,7 +326,14 @@ SPECS["C15"] = dict(
                 "(run_refines_list). The model is tied to /repo by running the real SlidingVec<u32> and SlidingSmallVec<[u32;4]> "
                 "and the compiled model on all op sequences up to length 6 (7 thorough) over an 11-symbol alphabet plus random "
                 "sequences up to 200 ops and diffing return values, slice views and lengths; a direct oracle compares both real "
-                "deques with std VecDeque and checks the space bound on the real representation."),
+                "deques with std VecDeque and checks the space bound on the real representation. Lengths and consumed prefixes "
+                "near 2^63 / 2^64 are reached with zero-sized items: SlidingDeque<Vec<()>> and a deque over a length-publishing "
+                "Vec<()> wrapper, from each of 9 edge lengths (0, 1, 2, 2^32, 2^63-1, 2^63, 2^63+1, usize::MAX-1, usize::MAX) x all "
+                "sequences of 3 (4 thorough) symbols of a 14-symbol alphabet (advance by each edge count, pop_front, pop_back, "
+                "push, slide, clear) plus random walks aimed at 'exactly half consumed'; the driver replays them on the "
+                "length-only model ZDeque, proved to be the image of the list model under length (zdeque_step_is_length_image, "
+                "zdeque_run_spec), diffing returned counts, len() and the backing length; the oracle is u128 reference "
+                "arithmetic plus the space bound read off the wrapper."),
     level_note=("Trusted: Lean kernel + 3 standard axioms; the correspondence harness and its generators; Vec/SmallVec behind "
                 "PushTruncateContainer (push/pop/truncate/slice) are modelled as a List. The space bound is not observable through "
                 "the public API proper: the harness is built with debug assertions on, so a violation is a check_rep panic "
@@ -331,7 +341,9 @@ SPECS["C15"] = dict(
                 "expected shape."),
     trusted_base=["std Vec / smallvec SmallVec implement push, pop, truncate and slices as a sequence (PushTruncateContainer)"],
     assumptions=["64-bit usize (lengths and advance counts are unbounded naturals in the model)",
-                 "slide() is modelled as compiled with debug assertions; the release-build early return yields the same state"],
+                 "slide() is modelled as compiled with debug assertions; the release-build early return yields the same state",
+                 "push_back onto a backing Vec<()> that already holds usize::MAX units is outside the property (std specifies a "
+                 "capacity-overflow panic); the zero-sized-item run does not execute it"],
 )
 
 SPECS["C16"] = dict(
@@ -370,7 +382,11 @@ SPECS["C16"] = dict(
                 "to /repo by running the real SortedDeque (pairs and a whole-item type, Vec and SmallVec<[_;4]>) and the compiled "
                 "model on all sequences up to length 5 (6 thorough) over a 13-symbol/4-key alphabet plus random histories up to "
                 "200 ops, diffing results, iteration, first/last/is_empty and probe lookups after every op; a direct oracle compares "
-                "with std BTreeMap and checks that exactly the order-violating pushes panic."),
+                "with std BTreeMap and checks that exactly the order-violating pushes panic. A 'large' generator profile (2 fixed "
+                "cases per convention in quick, 12 in thorough, plus about 1 in 500-1000 random cases) takes one deque through "
+                "small fill, middle tombstones, clear, refill with 400-3000 keys, removal of 55-95% of the inner keys in random "
+                "order, then probes/pops/pushes, observing result, first/last/is_empty after every op and a count+FNV-1a digest "
+                "of the iteration at intervals."),
     level_note=("Trusted: Lean kernel + 3 standard axioms; the correspondence harness and its generators. std's "
                 "binary_search_by is re-modelled from its source (core 1.95), not verified against the compiled std; the "
                 "theorems only need it to be a correct search on sorted slices. For whole-item ordering the theorem covers "
